@@ -30,8 +30,9 @@ variable {C : Type}
 /-- **T1** For every table (any number `n ≥ 1` of rows, any row order, any
 columns) and every request: the column stored for a requested variable `v` is,
 row by row of the sorted input rows, `rel[v]` of the `AurelCore` whose data
-is `relData E cv r` — a function of that row `r` alone.  No other row occurs
-in the term. -/
+is `relData E cv r` — a function of that row `r` alone (its inputs followed by
+the custom-function values, see `per_step_frozen_customs`).  No other row
+occurs in the term. -/
 theorem per_step (E : Env C) {t : Table C} {n : Nat} {tk : Name} (hwf : WF t n) (hn : 0 < n)
     (htk : temporalKey t = some tk) {vars ests : List Req} (hp : Processes E t vars ests) :
     ∃ out, overTime E t vars ests = .ok out ∧
@@ -39,6 +40,28 @@ theorem per_step (E : Env C) {t : Table C} {n : Nat} {tk : Name} (hwf : WF t n) 
         get? v.key out = some ((sortP E tk (rowsOf t n)).map
           (fun r => relGet E (relData E (cleanVars E t vars) r) v.key)) :=
   per_step_lemma E hwf hn htk hp
+
+/-- **T1, custom variables are frozen inputs of the step** (request names
+pairwise distinct): the `AurelCore` of row `r` holds `r ++ custVals E r cv` —
+the row's inputs followed by the values of the custom functions, each
+evaluated on the inputs plus the custom values before it — and every requested
+variable is read from exactly that dictionary; in particular every built-in
+name `s` of the row is `comp (r ++ custVals E r cv) s`.  The model has no
+cache parameter: whatever `clear_cache_every_nbr_calc` / memory threshold is
+passed through `over_time`, a custom value (also one named like a built-in
+key, e.g. a custom `press`) is an input of everything computed later in the
+same step, never replaced by the built-in default. -/
+theorem per_step_frozen_customs (E : Env C) {t : Table C} {n : Nat} {tk : Name} (hwf : WF t n)
+    (hn : 0 < n) (htk : temporalKey t = some tk) {vars ests : List Req} (hp : Processes E t vars ests)
+    (hnd : ((cleanVars E t vars).map CReq.key).Nodup) :
+    ∃ out, overTime E t vars ests = .ok out ∧
+      (∀ v ∈ cleanVars E t vars,
+        get? v.key out = some ((sortP E tk (rowsOf t n)).map
+          (fun r => relGet E (r ++ custVals E r (cleanVars E t vars)) v.key))) ∧
+      (∀ s, CReq.name s ∈ cleanVars E t vars →
+        get? s out = some ((sortP E tk (rowsOf t n)).map
+          (fun r => E.comp (r ++ custVals E r (cleanVars E t vars)) s))) :=
+  per_step_frozen_customs_lemma E hwf hn htk hp hnd
 
 /-- **T1, built-in names** If the cleaned request contains only built-in
 names, every stored cell is `comp (that row's input cells) name`. -/
@@ -322,6 +345,13 @@ example : ∃ out, overTime E1 t1 [.name "K"] [] = .ok out ∧
   per_step_builtin E1 wf_t1 (by decide) (by decide +kernel) (by decide +kernel) (by
     have : cleanVars E1 t1 [.name "K"] = [.name "K"] := by decide +kernel
     rw [this]; intro v hv; exact ⟨"K", by simpa using hv⟩)
+
+/-- `per_step_frozen_customs` on the instance: the built-in `K` of a row is `comp` of the
+row's inputs followed by the custom value `c` -/
+example : overTime E1 t1 [.dict [("c", "f")], .name "K"] []
+      = .ok [("it", [0, 1, 2]), ("a", [10, 11, 12]), ("c", [210, 211, 212]), ("K", [110, 111, 112])]
+    ∧ custVals E1 [("it", 0), ("a", 10)] (cleanVars E1 t1 [.dict [("c", "f")], .name "K"]) = [("c", 210)] := by
+  decide +kernel
 
 /-- ties: equal temporal cells keep their input order (stability) -/
 example : overTime E1 [("it", [1, 0, 1, 0]), ("a", [10, 11, 12, 13])] [.name "K"] []
